@@ -103,9 +103,11 @@ class ConformerGenerator(object):
         """
         if not isinstance(num_conf, int) or num_conf < -1 or num_conf == 0:
             raise ValueError("num_conf must be either -1 or a positive integer")
+        self.num_conf = num_conf
         self.max_conformers = num_conf
         if not isinstance(first, int) or first < -1 or first == 0:
             raise ValueError("first must be either -1 or a positive integer")
+        self.first = first
         self.first_conformers = first
         if not rmsd_cutoff or rmsd_cutoff < 0:
             rmsd_cutoff = -1.0
@@ -220,11 +222,15 @@ class ConformerGenerator(object):
         logging.debug("Sanitizing mol for %s" % log_name)
         Chem.SanitizeMol(mol)
         logging.debug("Mol sanitized for %s" % log_name)
-        if self.max_conformers == -1 or type(self.max_conformers) is not int:
+        if self.num_conf == -1 or type(self.num_conf) is not int:
             self.max_conformers = self.get_num_conformers(mol)
+        else:
+            self.max_conformers = self.num_conf
         n_confs = self.max_conformers * self.pool_multiplier
-        if self.first_conformers == -1:
+        if self.first == -1:
             self.first_conformers = self.max_conformers
+        else:
+            self.first_conformers = self.first
         logging.debug("Embedding %d conformers for %s" % (n_confs, log_name))
         AllChem.EmbedMultipleConfs(
             mol,
